@@ -81,7 +81,12 @@ def check_case(ctx, case):
             import pathlib
             p = pathlib.Path(p)          # file names are accepted as str and as pathlib.Path
         hdr = case["header"]
-        if case["append"] and len(events) >= 2:
+        if case.get("append_to_empty") and events:
+            # an empty catalog written first (with or without header), the events appended with the default header: the file then
+            # starts with up to two header lines, which write_ascii produces by itself
+            o = call(lambda: (fresh([]).write_ascii(p, write_header=hdr), fresh().write_ascii(p, append=True)))
+            ctx.count("appended_to_an_empty_catalog_file")
+        elif case["append"] and len(events) >= 2:
             h = len(events) // 2
             o = call(lambda: (fresh(events[:h]).write_ascii(p, write_header=hdr), fresh(events[h:]).write_ascii(p, write_header=False, append=True)))
         else:
@@ -213,6 +218,8 @@ def cases(draw):
             x0, y0 = L._coord(L.lon0, i), L._coord(L.lat0, j)
             e[3] = x0 if fx == 0 else x0 + fx * L.fdh
             e[2] = y0 if fy == 0 else y0 + fy * L.fdh
+    if draw(st.integers(0, 5)) == 0:
+        c["append_to_empty"] = True
     if draw(st.integers(0, 3)) == 0:
         c["pathlib"] = True
     if n and draw(st.integers(0, 15)) == 0:
